@@ -142,7 +142,14 @@ def run_perm(rng, obs):
         }
         for n in order: acts[n]()
         return s
-    def run(order):
+    # a second block of Set* calls between two Steps of the running solver (narrower ranges, another penalty, a fresh evaluation monitor,
+    # new limits): their order must not matter either
+    mid = rng.random() < 0.5
+    mid_names = ['ranges2', 'penalty2', 'evalmon2', 'limits2']
+    pen2 = K.gen_penalty(rng, dim)
+    lo2 = [l + 0.25 * (h - l) for l, h in zip(box['lo'], box['hi'])]; hi2 = [h - 0.25 * (h - l) for l, h in zip(box['lo'], box['hi'])]
+    more = rng.randint(2, 5)
+    def run(order, mid_order=None):
         random.seed(obs.seed); np.random.seed(obs.seed % (2 ** 32))
         probe = K.CostProbe(raw)
         s = configure(order, probe)
@@ -151,18 +158,29 @@ def run_perm(rng, obs):
         out = []
         for _ in range(steps):
             s.Step(**kw); out.append(traj_state(s))
+        if mid_order:
+            acts2 = {'ranges2': lambda: s.SetStrictRanges(list(lo2), list(hi2)), 'penalty2': lambda: s.SetPenalty(K.make_penalty(pen2)),
+                     'evalmon2': lambda: s.SetEvaluationMonitor(Monitor()), 'limits2': lambda: s.SetEvaluationLimits(10 ** 6 + 1, 10 ** 8 + 1)}
+            for n in mid_order: acts2[n]()
+            for _ in range(more):
+                s.Step(**kw); out.append(traj_state(s))
         return out, [c[0] for c in probe.calls]
-    base, base_calls = run(names)
+    base, base_calls = run(names, mid_names if mid else None)
     obs.desc = dict(cfg, box=[box['lo'], box['hi']], tight=tight, cons=cons, pen=pen, steps=steps)
     nperm = 6
     far = False
     for _ in range(nperm):
         order = list(names); rng.shuffle(order)
         moved = sum(1 for a, b in zip(order, names) if a != b)
-        got, calls = run(order)
+        mid_order = None
+        if mid:
+            mid_order = list(mid_names); rng.shuffle(mid_order)
+            if rng.random() < 0.5: order = list(names)          # vary only the mid-run block
+        got, calls = run(order, mid_order)
+        if mid: obs.event('midrun_permutations')
         same = got == base and calls == base_calls
         first = next((i for i, (a, b) in enumerate(zip(got, base)) if a != b), None)
-        obs.check(same, 'perm:same trajectory whatever the order of the Set* calls', order=order, first_differing_step=first, solver=cfg['solver'], tight=tight,
+        obs.check(same, 'perm:same trajectory whatever the order of the Set* calls', order=order, midrun_order=mid_order, first_differing_step=first, solver=cfg['solver'], tight=tight,
                   ranges_before_init=order.index('ranges') < order.index('init'), random_init=use_random_init,
                   field=None if first is None else next((k for k in got[first] if got[first][k] != base[first][k]), None))
         if moved >= 3: far = True
